@@ -56,6 +56,7 @@ type Knobs struct {
 	ColdQueueLocks bool   `json:"cold_queue_locks"`
 	EOFReadCostMs  int    `json:"eof_read_cost_ms,omitempty"`
 	MaxSteps       int    `json:"max_steps,omitempty"`
+	CtxErrPoints   bool   `json:"ctx_err_points,omitempty"`
 }
 
 // GenKnobs draws scheduler knobs.
@@ -71,6 +72,7 @@ func GenKnobs(r *Rand) Knobs {
 	default:
 		k.Strategy = "uniform"
 	}
+	k.CtxErrPoints = r.Pct(50)
 	return k
 }
 
@@ -81,6 +83,7 @@ func (k Knobs) Config(schedSeed uint64) simrt.Config {
 		StickyP:        k.StickyP,
 		PCTDepth:       k.PCTDepth,
 		ColdQueueLocks: k.ColdQueueLocks,
+		CtxErrPoints:   k.CtxErrPoints,
 		EOFReadCostMs:  k.EOFReadCostMs,
 		MaxSteps:       k.MaxSteps,
 	}
